@@ -2557,3 +2557,177 @@ CATALOGUE['C16'] = [
                         max = item
                 except TypeError:"""),
 ]
+
+
+# ------------------------------------------------------------- later rules
+# (rules added from the seed waves 6 and 7; the kept seeds themselves are
+# replayed by the thorough tier as well)
+_INIT_OLD = """        if alt_prefix:
+            self.alt_prefix = alt_prefix + '_'
+"""
+_INIT_NEW = """        self.alt_prefix = alt_prefix + '_' if alt_prefix else ''
+"""
+_GUARD_OLD = "if not (alt_prefix and key.startswith(alt_prefix)):"
+_GUARD_NEW = "if alt_prefix is None or not key.startswith(alt_prefix):"
+for _pid, _rule in (('C02', 'C02.R8'), ('C10', 'C10.R6')):
+    CATALOGUE[_pid] += [
+        V('in-block name space: empty prefix accepted (two edits)',
+          'DT_InSV.py', _INIT_OLD, _INIT_NEW, _rule,
+          extra=[(_GUARD_OLD, _GUARD_NEW)]),
+        V('silent: prefix attribute always a str (first edit alone)',
+          'DT_InSV.py', _INIT_OLD, _INIT_NEW),
+        V('silent: explicit None test (second edit alone)',
+          'DT_InSV.py', _GUARD_OLD, _GUARD_NEW),
+    ]
+
+CATALOGUE['C08'] += [
+    V('_push ignores a None source', '_DocumentTemplate.py',
+      '''        """_push(mapping_object) -- Add a data source"""
+        self._data.append(src)''',
+      '''        """_push(mapping_object) -- Add a data source"""
+        if src is None:
+            return
+        self._data.append(src)''', 'C08.R5'),
+]
+
+CATALOGUE['C09'] += [
+    V('reader: bare KeyError counts as undefined', '_DocumentTemplate.py',
+      'if n != t.args[0]:', 'if t.args and n != t.args[0]:', 'C09.R5'),
+    V('silent: reader compares the other way round', '_DocumentTemplate.py',
+      'if n != t.args[0]:', 'if not (t.args[0] == n):'),
+    V('writer: KeyError carries a message', '_DocumentTemplate.py',
+      """            return e
+        raise KeyError(key)""",
+      """            return e
+        raise KeyError('%s is not defined' % key)""", 'C09.R5'),
+    V('marker probed on the wrapped value', '_DocumentTemplate.py',
+      "if getattr(base, 'isDocTemp', False):",
+      "if getattr(e, 'isDocTemp', False):", 'C09.R6'),
+]
+
+CATALOGUE['C10'] += [
+    V('pair test without tuple test', 'DT_InSV.py',
+      'if type(i) is tt and len(i) == 2:', 'if len(i) == 2:', 'C10.R7'),
+    V('silent: pair test with isinstance', 'DT_InSV.py',
+      'if type(i) is tt and len(i) == 2:',
+      'if isinstance(i, tuple) and len(i) == 2:'),
+    V('None attribute taken for a missing one', '_DocumentTemplate.py',
+      """        try:
+            result = get(self.inst, key)
+        except AttributeError:
+            raise KeyError(key)
+""",
+      """        result = get(self.inst, key, None)
+        if result is None:
+            raise KeyError(key)
+""", 'C10.R8'),
+]
+
+CATALOGUE['C11'] += [
+    V('previous-batches memoised as a reversed() iterator', 'DT_InSV.py',
+      """        r.reverse()
+        data['previous-batches'] = r""",
+      """        data['previous-batches'] = r = reversed(r)""", 'C11.R7'),
+    V('silent: previous-batches reversed by slicing', 'DT_InSV.py',
+      """        r.reverse()
+        data['previous-batches'] = r""",
+      """        r = r[::-1]
+        data['previous-batches'] = r"""),
+    V('batch flags without initial value', 'DT_InSV.py',
+      """            'previous-sequence': 0,
+            'next-sequence': 0,
+""", '', 'C11.R8'),
+]
+
+CATALOGUE['C12'] += [
+    V('window computation changes a given size', 'DT_InSV.py',
+      """        if start - 1 < orphan:
+            start = 1
+    else:""",
+      """        if start - 1 < orphan:
+            start = 1
+            size = end
+    else:""", 'C12.R4'),
+]
+
+CATALOGUE['C14'] += [
+    V('error_type from __qualname__', 'DT_Try.py',
+      'errname = t.__name__', 'errname = t.__qualname__', 'C14.R9'),
+    V('silent: error_type through getattr-free alias', 'DT_Try.py',
+      'errname = t.__name__', 'errname = exc_name = t.__name__'),
+]
+
+CATALOGUE['C15'] += [
+    V('EPFS conversion lower-cased', 'DT_String.py',
+      "return match_ob.group('fmt')",
+      "return match_ob.group('fmt').lower()", 'C15.R9'),
+    V('silent: EPFS conversion through a local', 'DT_String.py',
+      "return match_ob.group('fmt')",
+      "fmt = match_ob.group('fmt')\n        return fmt"),
+]
+
+CATALOGUE['C16'] += [
+    V('median: values sorted only for larger samples', 'DT_InSV.py',
+      """            values.sort()
+            if count == 1:""",
+      """            if count > 2:
+                values.sort()
+            if count == 1:""", 'C16.R4'),
+]
+
+for _pid, _rule in (('C17', 'C17.R8'), ('C18', 'C18.R8')):
+    CATALOGUE[_pid] += [
+        V('modifier functions kept as a map() iterator', 'DT_Var.py',
+          """        self.modifiers = tuple(
+            map(lambda t: t[1],""",
+          """        self.modifiers = (
+            map(lambda t: t[1],""", _rule),
+    ]
+
+for _pid, _rule in (('C17', 'C17.R6'), ('C20', 'C20.R10')):
+    CATALOGUE[_pid] += [
+        V('state built around a mutable default argument', 'TreeTag.py',
+          'def extract_id(item, idattr):',
+          'def root_state(id, substate=[]):\n    return [id, substate],\n'
+          '\n\ndef extract_id(item, idattr):', _rule),
+        V('silent: fresh list per call', 'TreeTag.py',
+          'def extract_id(item, idattr):',
+          'def root_state(id, substate=None):\n'
+          '    return [id, substate if substate is not None else []],\n'
+          '\n\ndef extract_id(item, idattr):'),
+    ]
+
+CATALOGUE['C06'] += [
+    V('continuation table is a string', 'DT_In.py',
+      "blockContinuations = ('else', )", "blockContinuations = ('else')",
+      'C06.R6'),
+]
+
+CATALOGUE['C07'] += [
+    V('command table rebound on the class', 'DT_String.py',
+      'self.commands[cname] = command',
+      'type(self).commands = dict(self.commands, **{cname: command})',
+      'C07.R9'),
+    V('EPFS: only blanks after the tag name', 'DT_String.py',
+      "'[\\000- ]+'", "'[ ]+'", 'C07.R10'),
+]
+
+CATALOGUE['C03'] += [
+    V('html_quote modifier skipped for values that look quoted',
+      'DT_Var.py',
+      "if f.__name__ == 'html_quote' and isinstance(val, TaintedString):",
+      "if f.__name__ == 'html_quote' and (\n"
+      "                    isinstance(val, TaintedString) or '&amp;' in val):",
+      'C03.R7'),
+]
+
+CATALOGUE['C19'] += [
+    V('join_unicode falls back to another encoding', '_DocumentTemplate.py',
+      """                rendered[i] = rendered[i].decode(encoding)""",
+      """                try:
+                    rendered[i] = rendered[i].decode(encoding)
+                except UnicodeDecodeError:
+                    encoding = 'latin-1'
+                    rendered[i] = rendered[i].decode(encoding)""",
+      'C19.R3'),
+]
